@@ -569,6 +569,15 @@ func (h *harnessGen) generate(ob *Obligation, mb map[string]*modelBytes, scal ma
 		t := p.Type()
 		name := "p_" + p.Name()
 		isRecv := i == 0 && fn.Signature.Recv() != nil
+		switch t.Underlying().(type) {
+		case *types.Interface, *types.Signature, *types.Chan, *types.Map:
+			// the harness passes nil; a model in which the argument is not nil
+			// cannot be reproduced (a nil dereference would confirm nothing)
+			if v, ok := scal[p.Name()]; ok && v != 0 {
+				h.unsupported = "parameter " + p.Name() + " (" + t.String() + ") is not nil in the model and cannot be constructed by the replay harness"
+				return "", false
+			}
+		}
 		if pt, ok := t.Underlying().(*types.Pointer); ok {
 			fmt.Fprintf(&body, "\t%s := new(%s)\n", name, h.typeStr(pt.Elem()))
 		} else {
@@ -675,7 +684,26 @@ func (h *harnessGen) generate(ob *Obligation, mb map[string]*modelBytes, scal ma
 	}
 	fmt.Fprintf(&body, "\tfunc() {\n\t\tdefer func() {\n\t\t\tif r := recover(); r != nil {\n\t\t\t\tfmt.Println(\"LSVC-REPLAY: PANIC:\", r)\n")
 	if ob.Kind == "safety" {
-		fmt.Fprintf(&body, "\t\t\t\tfmt.Println(\"LSVC-REPLAY: CONFIRMED (the real function panics on the model's input)\")\n")
+		// the panic must be of the kind the obligation is about: nil
+		// dereferences are assumed away by the model, so one that happens on
+		// an input the harness could not build confirms nothing
+		want := ""
+		switch {
+		case strings.Contains(ob.Name, "/safety.index#"):
+			want = "index out of range"
+		case strings.Contains(ob.Name, "/safety.slice#"):
+			want = "slice bounds out of range"
+		case strings.Contains(ob.Name, "/safety.makeslice#"):
+			want = "makeslice"
+		case strings.Contains(ob.Name, "/safety.div#"):
+			want = "divide"
+		case strings.Contains(ob.Name, "/safety.shift#"):
+			want = "shift"
+		}
+		fmt.Fprintf(&body, "\t\t\t\tif msg := fmt.Sprint(r); lsvcstrings.Contains(msg, %q) && !lsvcstrings.Contains(msg, \"nil pointer dereference\") {\n", want)
+		fmt.Fprintf(&body, "\t\t\t\t\tfmt.Println(\"LSVC-REPLAY: CONFIRMED (the real function panics on the model's input)\")\n")
+		fmt.Fprintf(&body, "\t\t\t\t}\n")
+		h.imports["strings"] = "lsvcstrings"
 	}
 	fmt.Fprintf(&body, "\t\t\t}\n\t\t}()\n")
 	if len(lhsRes) > 0 {
